@@ -6,7 +6,7 @@ from typing import Any
 
 from sa.kern import make_evaluator
 from sa.report import Ctx
-from sa.srcmodel import FuncInfo, func_body
+from sa.srcmodel import FuncInfo, func_body, inline_locals
 from sa.symterm import Env, Poly, Unsupported, show
 
 MOD = "moptipyapps.order1d.instance"
@@ -392,7 +392,7 @@ def _multiplier_positive(fi: FuncInfo, name: str = "multiplier") -> bool:
                 s.targets[0] if isinstance(s, ast.Assign) else s.target) \
                 == name and s.value is not None:
             n += 1
-            v = s.value
+            v = inline_locals(fi.node, s.value)
             if isinstance(v, ast.Constant) and isinstance(
                     v.value, (int, float)) and v.value > 0:
                 continue
@@ -816,7 +816,8 @@ def _merging(ctx: Ctx) -> None:
                     if len(rets) == 1 and isinstance(
                             rets[0].value, ast.Call) and src(
                             rets[0].value.func) == "Instance":
-                        a = rets[0].value.args
+                        a = [inline_locals(fi.node, x_)
+                             for x_ in rets[0].value.args]
                         okr = len(a) >= 5 and src(a[0]) == \
                             f"np.array({rows})" and maps is not None and \
                             maps in src(a[4])
@@ -826,7 +827,6 @@ def _merging(ctx: Ctx) -> None:
                                         "the object -> representative map")
                     else:
                         ctor = repo.func(MOD, "Instance.__init__").params[1:]
-                        a = rets[0].value.args
                         for k_ in (1, 2, 3):
                             if k_ < len(a) and src(a[k_]) != ctor[k_]:
                                 problems.append(
